@@ -108,6 +108,81 @@ type runXML struct {
 	Drawing          []drawingXML          `xml:"drawing"`
 	Symbols          []symXML              `xml:"sym"`
 	AlternateContent []alternateContentXML `xml:"AlternateContent"`
+
+	// pieces holds the text contribution of every content child (t, tab, br,
+	// sym, AlternateContent) in document order. It is filled by UnmarshalXML;
+	// the typed slices above lose the interleaving of different child kinds.
+	pieces []string
+}
+
+// UnmarshalXML decodes a run child by child so that the order in which text,
+// tabs, breaks and symbols occur inside the run is preserved (a run is a
+// repeated choice group: <w:tab/><w:t>x</w:t> and <w:t>x</w:t><w:tab/> are
+// different texts).
+func (r *runXML) UnmarshalXML(d *xml.Decoder, start xml.StartElement) error {
+	r.XMLName = start.Name
+	r.pieces = []string{}
+	for {
+		tok, err := d.Token()
+		if err != nil {
+			return err
+		}
+		switch t := tok.(type) {
+		case xml.StartElement:
+			switch t.Name.Local {
+			case "rPr":
+				err = d.DecodeElement(&r.Properties, &t)
+			case "t":
+				var v textXML
+				if err = d.DecodeElement(&v, &t); err == nil {
+					r.Text = append(r.Text, v)
+					r.pieces = append(r.pieces, v.Value)
+				}
+			case "tab":
+				var v tabXML
+				if err = d.DecodeElement(&v, &t); err == nil {
+					r.Tabs = append(r.Tabs, v)
+					r.pieces = append(r.pieces, "\t")
+				}
+			case "br":
+				var v breakXML
+				if err = d.DecodeElement(&v, &t); err == nil {
+					r.Breaks = append(r.Breaks, v)
+					if v.Type == "page" {
+						r.pieces = append(r.pieces, "\n\n")
+					} else {
+						r.pieces = append(r.pieces, "\n")
+					}
+				}
+			case "sym":
+				var v symXML
+				if err = d.DecodeElement(&v, &t); err == nil {
+					r.Symbols = append(r.Symbols, v)
+					r.pieces = append(r.pieces, parseSymbolChar(v.Char))
+				}
+			case "drawing":
+				var v drawingXML
+				if err = d.DecodeElement(&v, &t); err == nil {
+					r.Drawing = append(r.Drawing, v)
+				}
+			case "AlternateContent":
+				var v alternateContentXML
+				if err = d.DecodeElement(&v, &t); err == nil {
+					r.AlternateContent = append(r.AlternateContent, v)
+					for _, ft := range v.Fallback.Text {
+						r.pieces = append(r.pieces, ft.Value)
+					}
+				}
+			default:
+				err = d.Skip()
+			}
+			if err != nil {
+				return err
+			}
+		case xml.EndElement:
+			return nil
+		}
+	}
 }
 
 // symXML represents a symbol character (<w:sym>).
